@@ -59,6 +59,11 @@ for _p in ("C01", "C03"):
     fixed("F50", _p, "a2c4d82", "C01.unit-merge|unit-merge|Switch-inputs|input", "`match t { 1 => bump(), _ => { x = x + 10.0 } }`: same panic in the Switch lowering for an arm without a value (findings/repro/F50_*.mmm)")
 fixed("F51", "C14", "0b515b8", "C14.keyword-space|kw|print_if_expr|If", "mimium-fmt printed `let y = if gate { 1.0 } else { 0.0 }` as `let y = ifgate { .. }` (keyword and an unparenthesised condition glued together: a different program); findings/repro/F51_*.mmm")
 fixed("F52", "C14", "74fa295", "C14.list-items|items|print_grouped_list", "mimium-fmt printed `fn f(x:float, g = 2.0, h)` as `fn f(x, :float, g, =2.0, h)`: the shared list printer skipped the comma tokens and put its own separator after every child, also inside a typed parameter or a default value (a different, unparsable program); findings/repro/F52_*.mmm")
+for _p in ("C05", "C03"):
+    fixed("F57", _p, "6fde856", "C05.cursor|resize-before-execute|execute_main", "`fn counter(x){ self + x }  let init = counter(5.0)  fn dsp(){ init }`: Machine::execute_main ran the global initialiser on the global state storage without sizing it (only execute_idx did), so the stateful call wrote through an unchecked pointer into an empty Vec: SIGSEGV on the VM while WASM answered 5.0 (findings/repro/F57_*.mmm); execute_main now grows the storage to main's layout first")
+fixed("F58", "C01", "cd5c593", "C01.prims|closure-state|reset", "`fn dsp(){ let k=1.0  let f = | |{self+k}  f() + mem(now) }`: the WASM host keys closure state by linear-memory address, fills it lazily and never removed an entry, and the bump allocator re-uses the addresses every tick: WASM 1,2,4,6,8 vs VM 1,1,2,3,4 (findings/repro/F58_closure_state_per_tick.mmm); a new import closure_state_reset is called where MakeClosure / Closure allocate")
+fixed("F59", "C01", "6d6ce53", "C01.defaults|default-rate|RuntimeState.sample_rate|default", "`let sr = samplerate  fn dsp(){ sr }`: globals are evaluated before the host sets the rate; RuntimeState::default said 44100 while every driver, the CLI options and WasmDspRuntime's cache say 48000: WASM 44100 vs VM 48000 (findings/repro/F59_global_samplerate.mmm)")
+fixed("F59", "C06", "6d6ce53", "C06.wasm|initial-setting|sample_rate", "same defect seen from the hot swap: the prewarmed engine ran `main` with 44100, try_hot_swap then re-applied the cached 48000")
 fixed("F53", "C04", "ab82728", "C04.assign-protocol|kind|IfExpr", "`if (now > 1.0) x = 5.0 else x = 7.0` (branches without braces): the parser accepts it, the lowering took the children one by one, made an error node of the AssignExpr sibling without any diagnostic, and the back ends crashed (`Instruction not implemented: Error` on the VM, an invalid module on WASM); findings/repro/F53_if_*.mmm")
 fixed("F53", "C04", "ab82728", "C04.assign-protocol|kind|MatchArm", "`_ => x = x + 10.0`: the arm body was lowered as `x` and the assignment dropped silently (0,1,1,1 instead of 10,11,21,31 on both back ends); findings/repro/F53_match_*.mmm")
 fixed("F53", "C04", "ab82728", "C04.assign-protocol|kind|MatchExpr", "same commit (the match lowering reaches the sequence-aware arm lowering)")
